@@ -227,6 +227,10 @@ pub fn tx_alphabet(n: &Node, cfg: &AlphaCfg) -> Vec<(String, Transaction, bool)>
             acc.push((format!("stake-with-change({})", short(&sc.0)), t, true));
         }
     }
+    if cfg.faucets && m.network == melstructs::NetID::Mainnet {
+        // the one faucet mainnet accepts (and accepts again: the statement's grandfathered exception)
+        acc.push(("faucet-grandfathered".into(), crate::props::c19::grandfathered(), true));
+    }
     if cfg.faucets {
         // two distinct faucets; each can be applied once per chain
         for j in 0..2u8 {
